@@ -49,7 +49,8 @@ def typeid_tests(p):
 def mir_inlined(F, nm):
     """the call event of a helper that the inline walker has walked in context (its own events follow)"""
     bl = F.by_path.get(nm, [])
-    return len(bl) == 1 and bl[0]["kind"] in ("Fn", "AssocFn") and str(bl[0].get("vis") or "").startswith("Restricted") and not bl[0].get("impl_trait")
+    return len(bl) == 1 and bl[0]["kind"] in ("Fn", "AssocFn") and not bl[0].get("impl_trait") and \
+        (str(bl[0].get("vis") or "").startswith("Restricted") or (bl[0]["kind"] == "Fn" and nm.startswith("impls::buf_bit_writer::")))
 
 
 def backend_events(F, p):
